@@ -181,6 +181,20 @@ Theorem c04_inc_refines_remove_partial : forall s u,
 Proof. exact inc_refines_remove_one. Qed.
 Print Assumptions c04_inc_refines_remove_partial.
 
+(* c04_inc_refines_upsert_partial (a + b): upsert_entities(ComputeNow) of ONE entity (present: its
+   descendants are stripped of the old entity's ancestors; absent: as add), any store with Inv:
+   edited graph acyclic => both layers succeed with equal parents and equal ancestor sets (an ancestor
+   justified only through the replaced entity's old parents disappears, one also justified by another path
+   is recomputed); the incremental layer reports Cycle => the spec layer reports Cycle.
+   MISSING: batches of several entities; rejection by the coded DFS on a cyclic edited graph. *)
+Theorem c04_inc_refines_upsert_partial : forall s e,
+  Inv s ->
+  (acyclic (graph_of (upd_over s e)) ->
+   exists si ss, i_upsert true s [e] = TOk si /\ s_compute s (OUpsert true [e]) = TOk ss /\ agree si ss)
+  /\ (i_upsert true s [e] = TErr ECycle -> s_compute s (OUpsert true [e]) = TErr ECycle).
+Proof. exact inc_refines_upsert_one. Qed.
+Print Assumptions c04_inc_refines_upsert_partial.
+
 (* ---- non-vacuity: concrete histories ---- *)
 (* diamond 0 -> {1,2} -> 3 -> 4, then remove 1 (one of two paths): 3 and 4 stay ancestors of 0;
    then remove 2 (the only remaining path): nothing survives *)
@@ -239,3 +253,8 @@ Example ex_inc_remove :
   let s := run_ops s_op [OFrom true [(0, [1; 2]); (1, [3]); (2, [3]); (3, [4])]] in
   agree_b (i_remove true s [1]) (s_compute s (ORemove true [1])) [0; 1; 2; 3; 4] = true.
 Proof. vm_compute. reflexivity. Qed.
+Example ex_inc_upsert :
+  let s := run_ops s_op [OFrom true [(0, [1; 2]); (1, [3]); (2, [3]); (3, [4])]] in
+  agree_b (i_upsert true s [(1, [5])]) (s_compute s (OUpsert true [(1, [5])])) [0; 1; 2; 3; 4; 5] = true
+  /\ i_upsert true s [(3, [0])] = TErr ECycle.
+Proof. split; vm_compute; reflexivity. Qed.
